@@ -1,4 +1,319 @@
+//! C14 — white stays white and neutrals stay neutral across spaces and adaptations.
+//! (a) every RGB node of the discovered graphs: white and every grey level (all 65 536 16-bit
+//!     greys in the thorough tier) through every edge: achromatic in the target, and back to
+//!     equal RGB components; white lands on the white point / L* = 100 / Oklab (1,0,0);
+//! (b) RGB<->XYZ matrix pairs are mutual inverses;
+//! (c) chromatic adaptation: every ordered pair of 11 white points x 3 cone matrices x an XYZ
+//!     lattice: white -> white, identity between equal white points, there-and-back, old and
+//!     new API agree.
+#![allow(deprecated)]
+use pg::{Graph, Kind};
+use pv::fl::Fl;
+use pv::refmodel::V3;
+use pv::{json, Collector, Ctx, Mode, Tier, Value};
+
+fn to64<T: Fl>(v: [T; 3]) -> V3 {
+    [v[0].to64(), v[1].to64(), v[2].to64()]
+}
+fn hex<T: Fl>(v: &[T]) -> Vec<String> {
+    v.iter().map(|x| format!("{:#x}", x.bits64())).collect()
+}
+
+/// How far from the neutral axis is `v` (components of node kind `k`), as a fraction of the
+/// component's range ("numerically zero chroma or saturation")? None: the type has no chroma.
+fn achromatic_measure(k: &Kind, v: V3) -> Option<f64> {
+    Some(match *k {
+        Kind::Lab(_) => v[1].abs().max(v[2].abs()) / 128.0,
+        Kind::Luv(_) => v[1].abs().max(v[2].abs()) / 180.0,
+        Kind::Lch(_) => v[1].abs() / 128.0,
+        Kind::Lchuv(_) => v[1].abs() / 180.0,
+        Kind::Oklab => v[1].abs().max(v[2].abs()) / 0.4,
+        Kind::Oklch => v[1].abs() / 0.4,
+        Kind::Hsluv(_) => v[1].abs() / 100.0,
+        Kind::Hsl(_) | Kind::Hsv(_) | Kind::Okhsl | Kind::Okhsv => v[1].abs(),
+        // HWB: grey <=> whiteness + blackness = 1
+        Kind::Hwb(_) | Kind::Okhwb => (1.0 - v[1] - v[2]).abs(),
+        Kind::Rgb(_) => (v[0] - v[1]).abs().max((v[1] - v[2]).abs()).max((v[0] - v[2]).abs()),
+        Kind::Xyz(w) => {
+            let wx = w.xyz();
+            (v[0] - wx[0] * v[1]).abs().max((v[2] - wx[2] * v[1]).abs())
+        }
+        Kind::Yxy(w) => {
+            if v[2].abs() < 1e-12 {
+                0.0
+            } else {
+                let wx = w.xyz();
+                let s = wx[0] + wx[1] + wx[2];
+                (v[0] - wx[0] / s).abs().max((v[1] - wx[1] / s).abs())
+            }
+        }
+        Kind::LmsVonKries(w) | Kind::LmsBradford(w) => {
+            let lw = k.from_xyz(w.xyz());
+            // proportional to the white's cone response
+            let y = k.to_xyz(v)[1];
+            (v[0] - lw[0] * y).abs().max((v[1] - lw[1] * y).abs()).max((v[2] - lw[2] * y).abs())
+        }
+        Kind::Luma(_) => return None,
+    })
+}
+
+/// tolerance for "numerically zero" chroma as a fraction of the component range.
+/// f64: the 7-digit matrices make a grey's XYZ deviate from the white point's direction by
+/// ≤ 5e-7, amplified ≤ 10× by cube roots next to black; f32: ≈ 60 ulps of 1.
+fn tol_achromatic<T: Fl>(k: &Kind) -> f64 {
+    let base = if T::NAME == "f32" { 2e-5 } else { 2e-6 };
+    match k {
+        // saturation is chroma divided by the (vanishing, next to black and white) maximum chroma
+        Kind::Hsluv(_) | Kind::Okhsl | Kind::Okhsv | Kind::Okhwb | Kind::Hsl(_) | Kind::Hsv(_) | Kind::Hwb(_) => 50.0 * base,
+        _ => base,
+    }
+}
+
+fn grey_class(g: f64) -> &'static str {
+    if g == 0.0 {
+        "black"
+    } else if g == 1.0 {
+        "white"
+    } else if g < 0.02 {
+        "near-black"
+    } else if g > 0.98 {
+        "near-white"
+    } else {
+        "mid-grey"
+    }
+}
+
+fn run_graph<T: Fl>(ctx: &Ctx, g: &Graph<T>, levels: usize, total: &mut Collector) {
+    let sub = format!("greys/{}/{}", g.name, T::NAME);
+    if !ctx.wants(&sub) {
+        return;
+    }
+    let n = g.n();
+    let rgb_nodes: Vec<usize> = (0..n).filter(|&i| matches!(g.nodes[i].kind, Kind::Rgb(_))).collect();
+    let nch = 64usize;
+    let rgb_ref = &rgb_nodes;
+    let cc = pv::par::run_chunks(nch * rgb_nodes.len(), |ci, c| {
+        let a = rgb_ref[ci / nch];
+        let part = ci % nch;
+        let ka = g.nodes[a].kind;
+        let (mut st, mut tr, mut tv) = (0u64, 0u64, 0u64);
+        let lo = levels * part / nch;
+        let hi = if part + 1 == nch { levels + 1 } else { levels * (part + 1) / nch };
+        for lv in lo..hi {
+            let gl = T::from64(lv as f64 / levels as f64);
+            let v = [gl, gl, gl];
+            let gcls = grey_class(gl.to64());
+            st += 1;
+            for b in 0..n {
+                if b == a {
+                    continue;
+                }
+                let Some(f) = g.unc[a][b] else { continue };
+                let kb = g.nodes[b].kind;
+                tr += 1;
+                let mk = |what: &str, obs: Value, exp: Value| json!({"sub": "grey", "group": g.name, "float": T::NAME, "what": what, "path": [g.nodes[a].name, g.nodes[b].name], "input": hex(&v), "grey": gl.to64(), "observed": obs, "expected": exp});
+                let r = match pv::catch(|| f(v)) {
+                    Ok(r) => r,
+                    Err(msg) => {
+                        c.violation(&format!("C14/grey/{}/{}/{}->{}/panic", g.name, T::NAME, g.nodes[a].name, g.nodes[b].name), 1.0, || mk("convert", json!({"panic": msg}), json!("no panic")));
+                        continue;
+                    }
+                };
+                let r64 = to64(r);
+                if let Some(m) = achromatic_measure(&kb, r64) {
+                    let t = tol_achromatic::<T>(&kb);
+                    tv += 1;
+                    if m <= t {
+                        c.ratio("grey-achromatic", m / t, || mk("achromatic", json!({"result": r64, "measure": m}), json!(null)));
+                    } else {
+                        c.violation(&format!("C14/grey-achromatic/{}/{}/{}->{}/{}", g.name, T::NAME, g.nodes[a].name, g.nodes[b].name, gcls), m, || mk("chroma/saturation of a grey, as a fraction of the range", json!({"result": r64, "measure": pv::report::fnum(m)}), json!({"tol": t})));
+                    }
+                }
+                // back to equal RGB components
+                if let Some(fb) = g.unc[b][a] {
+                    if !kb.is_luma() {
+                        tr += 1;
+                        tv += 1;
+                        if let Ok(back) = pv::catch(|| fb(r)) {
+                            let b64 = to64(back);
+                            let spread = achromatic_measure(&ka, b64).unwrap_or(0.0);
+                            let off = (b64[0] - gl.to64()).abs();
+                            // through a saturation-type space near black/white the tolerance of that space applies
+                            let t = tol_achromatic::<T>(&kb).max(tol_achromatic::<T>(&ka)) * 5.0;
+                            let m = spread.max(off);
+                            if m <= t {
+                                c.ratio("grey-roundtrip", m / t, || mk("roundtrip", json!({"back": b64}), json!(null)));
+                            } else {
+                                c.violation(&format!("C14/grey-roundtrip/{}/{}/{}->{}/{}", g.name, T::NAME, g.nodes[a].name, g.nodes[b].name, gcls), m, || mk("grey -> space -> RGB", json!({"via": r64, "back": b64, "measure": pv::report::fnum(m)}), json!({"equal components": gl.to64(), "tol": t})));
+                            }
+                        }
+                    }
+                }
+                // white: lands on the white point
+                if lv == levels {
+                    tv += 1;
+                    let want: Option<V3> = match kb {
+                        Kind::Xyz(w) => Some(w.xyz()),
+                        Kind::Lab(_) | Kind::Luv(_) => Some([100.0, 0.0, 0.0]),
+                        Kind::Oklab => Some([1.0, 0.0, 0.0]),
+                        _ => None,
+                    };
+                    if let Some(w) = want {
+                        let scale = if matches!(kb, Kind::Lab(_) | Kind::Luv(_)) { 100.0 } else { 1.0 };
+                        let d = pv::refmodel::max_abs_diff(r64, w) / scale;
+                        let t = if T::NAME == "f32" { 2e-5 } else { 2e-6 };
+                        if d <= t {
+                            c.ratio("white", d / t, || mk("white", json!({"result": r64}), json!(w)));
+                        } else {
+                            c.violation(&format!("C14/white/{}/{}/{}->{}", g.name, T::NAME, g.nodes[a].name, g.nodes[b].name), d, || mk("white of the RGB standard", json!({"result": r64, "err": d}), json!({"expected": w, "tol": t})));
+                        }
+                    }
+                    match kb {
+                        Kind::Lch(_) | Kind::Lchuv(_) => {
+                            let d = ((r64[0] - 100.0).abs() / 100.0).max(r64[1].abs() / 128.0);
+                            let t = if T::NAME == "f32" { 2e-5 } else { 2e-6 };
+                            if !(d <= t) {
+                                c.violation(&format!("C14/white/{}/{}/{}->{}", g.name, T::NAME, g.nodes[a].name, g.nodes[b].name), d, || mk("white of the RGB standard", json!({"result": r64}), json!({"l": 100.0, "chroma": 0.0, "tol": t})));
+                            }
+                        }
+                        Kind::Oklch => {
+                            let d = (r64[0] - 1.0).abs().max(r64[1].abs());
+                            let t = if T::NAME == "f32" { 2e-5 } else { 2e-6 };
+                            if !(d <= t) {
+                                c.violation(&format!("C14/white/{}/{}/{}->{}", g.name, T::NAME, g.nodes[a].name, g.nodes[b].name), d, || mk("white of the RGB standard", json!({"result": r64}), json!({"l": 1.0, "chroma": 0.0, "tol": t})));
+                            }
+                        }
+                        _ => {}
+                    }
+                }
+                c.outcome(r[0].bits64() ^ r[1].bits64().rotate_left(17) ^ r[2].bits64().rotate_left(39));
+            }
+            if lv % 4099 == 0 {
+                c.sample(pv::splitmix(ci as u64 * 65537 + lv as u64), || json!({"group": g.name, "float": T::NAME, "node": g.nodes[a].name, "grey": gl.to64()}));
+            }
+        }
+        c.add(&sub, st, tr, tv, st);
+    });
+    total.merge(cc);
+    total.exhaustive(&sub, true, &format!("{} RGB nodes x all {} grey levels k/{} (incl. black and white) x every outgoing edge and the edge back", rgb_nodes.len(), levels + 1, levels));
+}
+
+// ---------------------------------------------------------------------------------------
+// matrices are mutual inverses
+
+fn check_matrix_inverses(ctx: &Ctx, c: &mut Collector) {
+    use palette::encoding;
+    use palette::rgb::RgbSpace;
+    let sub = "matrix-inverse";
+    if !ctx.wants(sub) {
+        return;
+    }
+    let mut n = 0u64;
+    macro_rules! sp {
+        ($name:literal, $t:ty) => {{
+            if let (Some(m), Some(mi)) = (<$t as RgbSpace>::rgb_to_xyz_matrix(), <$t as RgbSpace>::xyz_to_rgb_matrix()) {
+                let p = palette::matrix::multiply_3x3(m, mi);
+                let q = palette::matrix::multiply_3x3(mi, m);
+                let inv = palette::matrix::matrix_inverse(m);
+                for i in 0..9 {
+                    let id = if i % 4 == 0 { 1.0 } else { 0.0 };
+                    n += 3;
+                    for (what, d) in [("M*Minv", (p[i] - id).abs()), ("Minv*M", (q[i] - id).abs()), ("matrix_inverse(M) vs Minv", (inv[i] - mi[i]).abs())] {
+                        c.ratio(sub, d / 2e-6, || json!({"space": $name, "what": what, "entry": i, "err": d}));
+                        if !(d <= 2e-6) {
+                            c.violation(&format!("C14/matrix-inverse/{}/{}", $name, what), d, || json!({"sub": "matrix", "space": $name, "what": what, "input": i, "observed": d, "expected": "<= 2e-6"}));
+                        }
+                    }
+                }
+            }
+        }};
+    }
+    sp!("Srgb", encoding::Srgb);
+    sp!("AdobeRgb", encoding::AdobeRgb);
+    sp!("Rec2020", encoding::Rec2020);
+    sp!("DisplayP3", encoding::DisplayP3);
+    sp!("DciP3", encoding::DciP3);
+    sp!("DciP3Plus", encoding::DciP3Plus<encoding::P3Gamma>);
+    sp!("ProPhotoRgb", encoding::ProPhotoRgb);
+    c.add(sub, n / 3, n, n, n / 3);
+    c.exhaustive(sub, true, "the hard-coded rgb->xyz / xyz->rgb matrix pair of every RGB space: both products against the identity, matrix_inverse against the hard-coded inverse, all 9 entries");
+}
+
+// ---------------------------------------------------------------------------------------
+// chromatic adaptation
+
+mod adapt;
+
+fn replay(c: &mut Collector, rep: &Value) {
+    let case = &rep["case"];
+    match case["sub"].as_str().unwrap_or("") {
+        "grey" => {
+            // re-run the grey level of that graph/node
+            let group = case["group"].as_str().unwrap_or("").to_string();
+            let float = case["float"].as_str().unwrap_or("").to_string();
+            let ctx = Ctx::from_args("C14").0;
+            macro_rules! go {
+                ($g:expr) => {{
+                    let g = $g;
+                    let mut t = Collector::new();
+                    run_graph(&ctx, &g, 256, &mut t);
+                    let needle = rep["signature"].as_str().unwrap_or("").rsplitn(2, '/').nth(1).unwrap_or("").to_string();
+                    for (s, v) in t.viol {
+                        if s.starts_with(&needle) {
+                            c.viol.insert(s, v);
+                        }
+                    }
+                }};
+            }
+            match (group.as_str(), float.as_str()) {
+                ("D65-core", "f32") => go!(pga::d65_f32()),
+                ("D65-core", "f64") => go!(pgb::d65_f64()),
+                ("D65-cylindrical", "f32") => go!(pgc::d65cyl_f32()),
+                ("D65-cylindrical", "f64") => go!(pgc::d65cyl_f64()),
+                ("D50", "f32") => go!(pgd::d50_f32()),
+                ("D50", "f64") => go!(pgd::d50_f64()),
+                ("DCI", "f32") => go!(pgd::dci_f32()),
+                _ => go!(pgd::dci_f64()),
+            }
+        }
+        "matrix" => {
+            let ctx = Ctx::from_args("C14").0;
+            check_matrix_inverses(&ctx, c);
+        }
+        _ => {
+            let ctx = Ctx::from_args("C14").0;
+            adapt::run(&ctx, c);
+        }
+    }
+}
+
 fn main() {
-    eprintln!("C14: check not built yet");
-    std::process::exit(3);
+    pv::main_guard(real_main)
+}
+
+fn real_main() -> i32 {
+    let (ctx, mode) = Ctx::from_args("C14");
+    if let Mode::Replay(rep) = mode {
+        let mut c = Collector::new();
+        replay(&mut c, &rep);
+        return ctx.finish_replay(c);
+    }
+    let mut total = Collector::new();
+    let levels = if ctx.tier == Tier::Quick { 4096 } else { 65535 };
+    run_graph(&ctx, &pga::d65_f32(), levels, &mut total);
+    run_graph(&ctx, &pgb::d65_f64(), levels, &mut total);
+    run_graph(&ctx, &pgc::d65cyl_f32(), levels, &mut total);
+    run_graph(&ctx, &pgc::d65cyl_f64(), levels, &mut total);
+    run_graph(&ctx, &pgd::d50_f32(), levels, &mut total);
+    run_graph(&ctx, &pgd::d50_f64(), levels, &mut total);
+    run_graph(&ctx, &pgd::dci_f32(), levels, &mut total);
+    run_graph(&ctx, &pgd::dci_f64(), levels, &mut total);
+    check_matrix_inverses(&ctx, &mut total);
+    adapt::run(&ctx, &mut total);
+    ctx.finish(
+        total,
+        "model_checking",
+        "states = (RGB standard, grey level k/N) pairs incl. black and white, matrix entries, and (source white point, destination white point, cone matrix, XYZ lattice point) tuples; transitions = conversions / adaptations executed; traces = predictions compared (achromatic measure, white point, round trip, identity); every state is non-trivial",
+        &["'numerically zero' chroma: <= 2e-6 (f64) / 2e-5 (f32) of the component range, 50x that for saturation-type coordinates (a ratio of two vanishing quantities next to black and white)", "white points are the ASTM E308 values of pv::refmodel::cie"],
+    )
 }
